@@ -254,7 +254,7 @@ def mutations(src, rnd, k):
         return out
     for _ in range(k):
         kind = rnd.choice(['truncate-line', 'trailing-dot', 'delete-line', 'truncate-file', 'dedent-flow', 'half-import', 'open-bracket', 'half-def',
-                           'line-separators'])
+                           'line-separators', 'truncate-after-line'])
         ln = rnd.randrange(1, len(lines) + 1)
         line = lines[ln - 1]
         if kind == 'truncate-line':
@@ -277,6 +277,15 @@ def mutations(src, rnd, k):
             col = rnd.randrange(0, len(line) + 1)
             new = lines[:ln - 1] + [line[:col]]
             out.append(('\n'.join(new), (ln, col), kind))
+        elif kind == 'truncate-after-line':
+            # the file cut at a line boundary: errors CPython detects at end of input (missing block after a header, open bracket,
+            # unterminated triple-quoted string) depend on how exactly the text ends
+            blanks = [i + 1 for i, l in enumerate(lines) if not l.strip() and i > 0 and (lines[i - 1].rstrip().endswith((':', '(', '[', ',', '"""', "'''")) or rnd.random() < 0.2)]
+            if blanks and rnd.random() < 0.6:
+                ln = rnd.choice(blanks)
+            tail = rnd.choice(['\n', '\n', '\n\n', '\n   \n', '', '\r\n', '\n\x0c\n', '\n# end', '\\\n'])
+            new = lines[:ln]
+            out.append(('\n'.join(new) + tail, (ln, len(new[-1])), kind))
         elif kind == 'dedent-flow':
             cands = [i for i, l in enumerate(lines) if l.strip().split(' ')[0].rstrip(':') in ('return', 'yield', 'break', 'continue', 'await', 'nonlocal') and l[:1] in ' \t']
             if not cands:
@@ -301,7 +310,7 @@ def mutations(src, rnd, k):
         elif kind == 'line-separators':
             # characters str.splitlines() treats as line breaks but the parser does not (form feed as a page break on its own
             # line or inside a string literal / comment), and CRLF line ends: line numbers must stay the parser's
-            how = rnd.choice(['formfeed-line', 'formfeed-in-comment', 'crlf', 'formfeed-in-string'])
+            how = rnd.choice(['formfeed-line', 'formfeed-in-comment', 'crlf', 'formfeed-in-string', 'lone-cr', 'cr-only'])
             if how == 'formfeed-line':
                 new = lines[:ln - 1] + ['\x0c'] + lines[ln - 1:]
                 text = '\n'.join(new) + '\n'
@@ -311,6 +320,13 @@ def mutations(src, rnd, k):
             elif how == 'formfeed-in-string':
                 new = ["_ff = 'a\x0cb'"] + lines
                 text = '\n'.join(new) + '\n'
+            elif how == 'lone-cr':
+                # a lone carriage return ends a line for the parser (a stray \r, \r\r\n)
+                new = lines
+                text = '\n'.join(new[:ln]) + '\r' + '\n'.join(new[ln:]) + '\n' if ln < len(new) else '\n'.join(new) + '\r'
+            elif how == 'cr-only':
+                new = lines
+                text = '\r'.join(new) + '\r'
             else:
                 new = lines
                 text = '\r\n'.join(new) + '\r\n'
